@@ -5,13 +5,18 @@
 (* directory (used as an obstacle).  Move(src, dst) is                      *)
 (* fixed_window.rs::move_file: fs::rename, NotFound tolerated, otherwise    *)
 (* the copy-and-delete fallback, which fails whenever rename failed for a   *)
-(* reason that is not "different mount".                                    *)
+(* reason that is not "different mount".  A fourth kind of entry, Full, is   *)
+(* a name at which nothing can be written (a symbolic link to /dev/full):   *)
+(* renaming something onto it replaces it, renaming it moves it along, and  *)
+(* writing an archive *into* it - Compress, the final step of a rotation    *)
+(* with a .gz pattern - fails with the source left in place.                *)
 (***************************************************************************)
 EXTENDS Naturals, Sequences
 
 Absent == [k |-> "absent", d |-> <<>>]
 File(d) == [k |-> "file", d |-> d]
 Dir == [k |-> "dir", d |-> <<>>]
+Full == [k |-> "full", d |-> <<>>]
 
 \* result of move_file(src, dst): [ok, src', dst']
 Move(src, dst) ==
@@ -19,5 +24,11 @@ Move(src, dst) ==
     [] src.k = "file" /\ dst.k # "dir"   -> [ok |-> TRUE,  src |-> Absent, dst |-> src]   \* rename replaces a file
     [] src.k = "file" /\ dst.k = "dir"   -> [ok |-> FALSE, src |-> src,    dst |-> dst]   \* EISDIR, copy fails too
     [] src.k = "dir" /\ dst.k = "absent" -> [ok |-> TRUE,  src |-> Absent, dst |-> src]   \* a directory is moved along
+    [] src.k = "full" /\ dst.k # "dir"  -> [ok |-> TRUE,  src |-> Absent, dst |-> src]   \* so is a symbolic link
     [] OTHER                             -> [ok |-> FALSE, src |-> src,    dst |-> dst]   \* ENOTDIR / ENOTEMPTY
+\* Compression::Gzip.compress(src, dst): create / truncate dst, write the compressed content, remove src
+Compress(src, dst) ==
+  CASE src.k = "file" /\ dst.k \in {"absent", "file"} -> [ok |-> TRUE,  src |-> Absent, dst |-> src]
+    [] src.k = "file" /\ dst.k \in {"dir", "full"}    -> [ok |-> FALSE, src |-> src,    dst |-> dst]   \* EISDIR / ENOSPC
+    [] OTHER                                            -> Move(src, dst)
 =============================================================================
